@@ -1,8 +1,12 @@
 package op
 
 import (
+	"sort"
+	"strings"
+
 	"github.com/berquerant/crd/errorx"
 	"github.com/berquerant/crd/note"
+	"gopkg.in/yaml.v3"
 )
 
 type Instance struct {
@@ -35,6 +39,31 @@ func (m Meta) Get(key string) string {
 
 func (m Meta) Set(key, value string) {
 	m[key] = value
+}
+
+// MarshalYAML quotes the texts that begin with a line break: printed in the
+// literal block style yaml.v3 picks for multi-line strings they lose their
+// first line break when read back.
+func (m Meta) MarshalYAML() (any, error) {
+	quote := false
+	keys := make([]string, 0, len(m))
+	for k, v := range m {
+		keys = append(keys, k)
+		quote = quote || strings.HasPrefix(v, "\n")
+	}
+	if !quote {
+		return map[string]string(m), nil
+	}
+	sort.Strings(keys)
+	node := &yaml.Node{Kind: yaml.MappingNode, Tag: "!!map"}
+	for _, k := range keys {
+		value := &yaml.Node{Kind: yaml.ScalarNode, Tag: "!!str", Value: m[k]}
+		if strings.HasPrefix(m[k], "\n") {
+			value.Style = yaml.DoubleQuotedStyle
+		}
+		node.Content = append(node.Content, &yaml.Node{Kind: yaml.ScalarNode, Tag: "!!str", Value: k}, value)
+	}
+	return node, nil
 }
 
 func NewMeta(keyValues ...string) *Meta {
